@@ -179,14 +179,19 @@ def one_case(c, rng, tmp):
                         cases=cases_d, constants=constants or None,
                         resources=resources or None, attrs=attrs or None, shuffle=shuffle, verbosity=0, **extra)
         else:
+            # the runner's own fn_args: any order when the call names its fn_args itself (run_cases below does)
+            own_args = list(sw.case_args + sw.combo_args)
+            if sw.cases and rng.random() < 0.6:
+                rng.shuffle(own_args)
+            desc["runner_fn_args"] = list(own_args)
             if api == "label":
                 runner = xyzpy.label(var_names, var_dims=var_dims, var_coords=var_coords,
                                      constants=constants or None, resources=resources or None, attrs=attrs or None,
-                                     fn_args=tuple(sw.case_args + sw.combo_args))(fn)
+                                     fn_args=tuple(own_args))(fn)
             else:
                 runner = xyzpy.Runner(fn, var_names, var_dims=var_dims, var_coords=var_coords,
                                       constants=constants or None, resources=resources or None, attrs=attrs or None,
-                                      fn_args=tuple(sw.case_args + sw.combo_args))
+                                      fn_args=tuple(own_args))
             if sw.cases:
                 # run_cases forwards `combos` unparsed (parse=False): hand it the parsed form
                 from xyzpy.gen.prepare import parse_combos
@@ -407,9 +412,9 @@ def run(tier, seed):
     c = core.Check("C03", tier, seed)
     gen_st = core.regen()
     b = core.build(PROP_FILE)
-    c.cov["translator"] = {k: v for k, v in gen_st.items() if k in ("GenRunner", "GenLabel")}
+    c.cov["translator"] = {k: v for k, v in gen_st.items() if k in ("GenRunner", "GenLabel", "GenFarmer")}
     c.cov["build"] = {"ok": b["ok"], "failed_file": b["failed_file"], "wall_s": round(b.get("wall_s", 0), 1)}
-    for u in ("GenRunner", "GenLabel"):
+    for u in ("GenRunner", "GenLabel", "GenFarmer"):
         if u in gen_st and not gen_st[u]["ok"]:
             c.obligation_broken(f"translator {u}", gen_st[u]["detail"])
     if not b["ok"]:
